@@ -510,6 +510,9 @@ def make_replay(pid, ob, hdir, wd, failing, tape):
 # --------------------------------------------------------------------------
 # one obligation
 # --------------------------------------------------------------------------
+SLOT_LOCK = threading.Lock()
+
+
 def run_obligation(pid, ob, hdir, kf_defs, slots):
     t0 = time.time()
     rec = dict(name=ob["name"], entry=ob["entry"], harness=ob["harness"],
@@ -525,9 +528,12 @@ def run_obligation(pid, ob, hdir, kf_defs, slots):
     demo = ob.get("kf_demo")
     defs = [d for d in kf_defs if not (demo and d == "KF_" + demo)]
     want_witness = ob.get("witness", True)
-    n = len(backends) + (1 if want_witness else 0)
-    for _ in range(n):
-        slots.acquire()
+    n = min(len(backends) + (1 if want_witness else 0), getattr(slots, "_initial_value", 1))
+    # all n slots are taken under one lock: taking them one by one lets several obligations each hold some and wait
+    # for more (observed once as a deadlock with --jobs 6: every thread asleep, no solver running)
+    with SLOT_LOCK:
+        for _ in range(n):
+            slots.acquire()
     try:
         gbw = os.path.join(wd, "h.witness.gb")
         ok, err = build_goto(ob, wd, hdir, defs, gbw)
